@@ -440,3 +440,37 @@ Proof.
   intros H Hnd. destruct (static_new_spec _ _ _ _ _ _ _ H) as (_ & Hf & _ & Hall).
   split; [|cbn; now rewrite Hf]. unfold stored_ok. cbn. intros n f Hin. now apply Hall.
 Qed.
+
+(** * a mount whose identity changes after the composefs was built *)
+Lemma set_base_names n q l : map fst (set_base n q l) = map fst l.
+Proof.
+  unfold set_base. rewrite map_map. apply map_ext. intros [n' f]. cbn. now destruct (String.eqb n n').
+Qed.
+
+(** composefs root ([d_stored = None]): whatever the mounts' identities have become, the listing made NOW agrees with
+    Walk and GetAttr made afterwards — there is no table that could be stale *)
+Theorem compose_live_after_change s0 d n q' off cnt es s1 s2 e qw fw s3 s4 qg s5 :
+  NoDup (map fst (d_ents d)) -> d_stored d = None ->
+  dir_readdir s0 (dir_set_base n q' d) off cnt = (es, s1) -> In e es ->
+  extends s1 s2 -> dir_walk s2 (dir_set_base n q' d) (d_name e) = Some (qw, fw, s3) ->
+  extends s3 s4 -> getattr s4 fw = (qg, s5) ->
+  qw = d_qid e /\ qg = d_qid e /\ d_type e = q_type (d_qid e) /\ s5 = s4.
+Proof.
+  intros Hnd Hst Hr Hin He1 Hw He2 Hg.
+  eapply readdir_walk_getattr_agree with (d := dir_set_base n q' d); eauto.
+  - cbn. now rewrite set_base_names.
+  - unfold stored_ok. cbn. now rewrite Hst.
+Qed.
+
+(** ... whereas a root that answered Readdir from a table filled at mount time (and Walk/GetAttr live, as they must be:
+    they return the mounted File itself) disagrees as soon as one mount's version or path moves on *)
+Theorem mount_cache_refuted :
+  let d := mkDir [("log"%string, mkFile (mkQid 0 0 0) [(0, 0)%nat]); ("other"%string, mkFile (mkQid 0 0 0) [(0, 1)%nat])] None [] in
+  let '(dc, s0) := dir_cache_at_mount m_init d in
+  let q' := mkQid 0 1 0 in                                           (* the file's version moved on *)
+  let '(es, s1) := dir_readdir s0 (dir_set_base "log" q' dc) 0 10 in    (* listing from the table *)
+  match dir_walk s1 (dir_set_base "log" q' d) "log" with                (* Walk asks the mount *)
+  | Some (qw, _, _) => map d_qid (filter (fun e => String.eqb (d_name e) "log") es) = [qw]
+  | None => False
+  end -> False.
+Proof. vm_compute. intros H. discriminate H. Qed.
